@@ -323,6 +323,8 @@ namespace sqf::runtime
         runtime_conf m_configuration;
         std::chrono::system_clock::time_point m_runtime_timestamp;
         std::chrono::system_clock::time_point m_run_timestamp;
+        // Number of decimals `toFixed <n>` selected for this runtime (-1: default formatting)
+        int m_scalar_decimals = -1;
         bool m_runtime_error;
 
         std::chrono::system_clock::time_point m_created_timestamp;
@@ -369,6 +371,8 @@ namespace sqf::runtime
         /// The maximum runtime of the configuration is measured from here.
         /// </summary>
         std::chrono::system_clock::time_point run_timestamp() { return m_run_timestamp; }
+        int scalar_decimals() const { return m_scalar_decimals; }
+        void scalar_decimals(int decimals) { m_scalar_decimals = decimals; }
 
         sqf::runtime::confighost& confighost() { return m_confighost; }
 
